@@ -163,6 +163,15 @@ def columns (specific : List Bytes) (p : PSpec) (obs : List Obs) : List Col :=
     else [{ name := sp.key, kind := .key sp.key, order := sp.order }]) ++
   (if p.unit then [{ name := sUnit, kind := .unit, order := .first }] else [])
 
+/-- `Key.String` / `Key.StringValues` as documented: the key:value pairs (or just the values) of the
+fields with a non-empty value, in field order, separated by single blanks. -/
+def tupleString (withKeys : Bool) (cols : List Col) (t : List Bytes) : Bytes :=
+  let pieces := (cols.zip t).filterMap fun (c, v) =>
+    if v.isEmpty then none else some (if withKeys then c.name ++ [58] ++ v else v)
+  match pieces with
+  | [] => []
+  | x :: xs => xs.foldl (fun acc y => acc ++ [32] ++ y) x
+
 /-! ### Identity -/
 
 def firstIndex {α : Type} [BEq α] (l : List α) (x : α) : Nat := l.findIdx (· == x)
